@@ -611,3 +611,52 @@ func VOpenHandles() int {
 
 // VAbs is the model of filepath.Abs (working directory /vtmp).
 func VAbs(p string) string { return vabs(p) }
+
+func VFileReadDir(f *os.File, n int) ([]os.DirEntry, error) {
+	h, err := vh(f, "readdir")
+	if err != nil {
+		return nil, err
+	}
+	ents, err := VReadDir(h.Name)
+	if err != nil {
+		return nil, err
+	}
+	if n > 0 {
+		start := int(h.Off)
+		if start >= len(ents) {
+			return nil, io.EOF
+		}
+		end := start + n
+		if end > len(ents) {
+			end = len(ents)
+		}
+		h.Off = int64(end)
+		return ents[start:end], nil
+	}
+	return ents, nil
+}
+
+func VFileReaddirnames(f *os.File, n int) ([]string, error) {
+	ents, err := VFileReadDir(f, n)
+	if err != nil {
+		return nil, err
+	}
+	var names []string
+	for _, e := range ents {
+		names = append(names, e.Name())
+	}
+	return names, nil
+}
+
+func VFileReaddir(f *os.File, n int) ([]os.FileInfo, error) {
+	ents, err := VFileReadDir(f, n)
+	if err != nil {
+		return nil, err
+	}
+	var out []os.FileInfo
+	for _, e := range ents {
+		fi, _ := e.Info()
+		out = append(out, fi)
+	}
+	return out, nil
+}
